@@ -28,14 +28,17 @@ void record_ct(const std::string& outdir, std::uint64_t seed, int executions, in
   const int cap = 10, maxdim = 3;
   for (int ex = 0; ex < executions; ++ex) {
     const bool cellular = (ex % 5 == 4);
+    // forest regime (every second execution): graphs with at most two edges on 8 vertices, edges flipped often - many
+    // open classes of dimension 0 born by removals, so that boundaries are sums of >= 4 open classes
+    const bool forest = !cellular && (ex % 2 == 1);
     const bool inc = rnd(2) == 0;
     const int D = std::vector<int>{-1, -1, 1, 2, 3}[rnd(5)];
     const int shortest = rnd(3) == 0 ? 1 : 0;
-    const int nv = 5 + rnd(3);
+    const int nv = forest ? 8 : 5 + rnd(3);
     const bool simp_keys = !cellular && rnd(3) != 0;
     crash_ctx().where = "record " + c + " execution " + std::to_string(ex);
     tr.emit(bj::object{{"op", "reset"}, {"dir", inc ? "inc" : "dec"}, {"D", D}, {"shortest", shortest}, {"ct", c},
-                       {"cellular", cellular}});
+                       {"cellular", cellular}, {"forest", forest}});
     std::vector<Bar> last, flast;
     ZP zp([&](int dim, int b, int d) { last.emplace_back(dim, b, d); });
     FZ fz([&](int dim, double b, double d) { flast.emplace_back(dim, val_code(b), val_code(d)); });
@@ -54,7 +57,7 @@ void record_ct(const std::string& outdir, std::uint64_t seed, int executions, in
       if (!cellular) {
         for (int m = 1; m < (1 << nv); ++m) {
           int d = __builtin_popcount(m) - 1;
-          if (d > maxdim || cnt[d] >= cap || key_of_mask(m) >= 0) continue;
+          if (d > (forest ? 1 : maxdim) || cnt[d] >= cap || key_of_mask(m) >= 0) continue;
           RecCell cnew{d, {}, m, 0};
           bool ok = true;
           if (d > 0)
@@ -101,6 +104,23 @@ void record_ct(const std::string& outdir, std::uint64_t seed, int executions, in
         if (!want_ins && rem.empty()) want_ins = true;
         if (want_ins && ins.empty()) op = "identity"; else op = want_ins ? "insert" : "remove";
       }
+      int forced_ins = -1, forced_rem = -1;
+      if (forest) {
+        std::vector<int> vins, eins, vrem, erem;
+        for (std::size_t i = 0; i < ins.size(); ++i) (ins[i].dim == 0 ? vins : eins).push_back(static_cast<int>(i));
+        for (int k : rem) (live[k].dim == 0 ? vrem : erem).push_back(k);
+        auto pick = [&](const std::vector<int>& v) { return v[rnd(static_cast<int>(v.size()))]; };
+        if (r >= 3) {
+          if (!vins.empty() && (r < 28 || (eins.empty() && erem.empty()))) { op = "insert"; forced_ins = pick(vins); }
+          else if (!vrem.empty() && r < 35) { op = "remove"; forced_rem = pick(vrem); }
+          else if (cnt[1] >= 2 && !erem.empty()) { op = "remove"; forced_rem = pick(erem); }
+          else if (!eins.empty() && (erem.empty() || rnd(100) < 60)) { op = "insert"; forced_ins = pick(eins); }
+          else if (!erem.empty()) { op = "remove"; forced_rem = pick(erem); }
+          else if (!vins.empty()) { op = "insert"; forced_ins = pick(vins); }
+          else if (!vrem.empty()) { op = "remove"; forced_rem = pick(vrem); }
+          else op = "identity";
+        }
+      }
       bj::object e{{"op", op}};
       last.clear();
       flast.clear();
@@ -114,6 +134,7 @@ void record_ct(const std::string& outdir, std::uint64_t seed, int executions, in
         // prefer higher-dimensional candidates now and then so that the complex does not stay a graph
         RecCell cnew = ins[rnd(static_cast<int>(ins.size()))];
         for (int t = 0; t < 2 && cnew.dim == 0 && cnt[0] >= 3; ++t) cnew = ins[rnd(static_cast<int>(ins.size()))];
+        if (forced_ins >= 0) cnew = ins[forced_ins];
         std::vector<int> ubd;
         for (int k : cnew.bd) ubd.push_back(live[k].user);
         if (rnd(2)) std::reverse(ubd.begin(), ubd.end());
@@ -126,6 +147,7 @@ void record_ct(const std::string& outdir, std::uint64_t seed, int executions, in
         e["bd"] = jarr(cnew.bd);
       } else if (op == "remove") {
         int k = rem[rnd(static_cast<int>(rem.size()))];
+        if (forced_rem >= 0) k = forced_rem;
         ret = zp.remove_cell(k);
         fret = fz.remove_cell(live[k].user, static_cast<double>(value));
         sret = sz.remove_cell(live[k].user, static_cast<double>(value));
